@@ -41,6 +41,8 @@ class SymCtx:
         k = e.get("k")
         if k == "Try":
             return self.ev(e["e"])
+        if k == "Return" and e.get("e") is not None:
+            return self.ev(e["e"])  # `return Ok(x);` as the last statement of a branch is the branch's value
         if k == "Path" and len(e["segs"]) == 1:
             if e["segs"][0] in self.env:
                 return self.env[e["segs"][0]]
@@ -172,10 +174,24 @@ def f_not(a):
     return 1.0 if a == 0 else 0.0
 
 
+def f_div(a, b):
+    if b == 0:
+        raise ValueError("division by zero in the model")
+    return a / b
+
+
+def f_rem_euclid(a, b):
+    if b == 0:
+        raise ValueError("modulo by zero in the model")
+    r = math.fmod(a, b)
+    return r + abs(b) if r < 0 else r
+
+
 FLOAT_BIN = {
-    "Add": lambda a, b: a + b, "Sub": lambda a, b: a - b, "Mul": lambda a, b: a * b,
+    "Add": lambda a, b: a + b, "Sub": lambda a, b: a - b, "Mul": lambda a, b: a * b, "Div": f_div, "Mod": f_rem_euclid,
     "Min": min, "Max": max, "Compare": f_compare, "And": f_and, "Or": f_or,
 }
+FLOAT_UN = {"Floor": lambda a: float(math.floor(a)), "Ceil": lambda a: float(math.ceil(a)), "Neg": lambda a: -a, "Abs": abs}
 
 
 class Val:
@@ -263,6 +279,12 @@ class FloatCtx:
                 op = A.path_segs(e["args"][2])[1]
                 a, b = self.ev(e["args"][0], env), self.ev(e["args"][1], env)
                 return Val(FLOAT_BIN[op](a.v, b.v), a.c and b.c)
+            if m == "op_unary":
+                op = A.path_segs(e["args"][1])[1]
+                a = self.ev(e["args"][0], env)
+                if op not in FLOAT_UN:
+                    raise ValueError("unary opcode %s" % op)
+                return Val(FLOAT_UN[op](a.v), a.c)
             args = [self.ev(a, env) for a in e["args"]]
             return self.call(m, args)
         if k == "If":
@@ -292,6 +314,25 @@ class FloatCtx:
                             ok = False
                     if ok:
                         return self.ev(arm["body"], env)
+                return None
+            src = A.ident(scr)
+            if src in env and isinstance(env[src], tuple) and env[src][0] == "op":
+                # `match op_a { Op::Const(v) => .., _ => .. }` is the if-let form written as a match
+                for arm in e["arms"]:
+                    p = arm["pat"]
+                    if arm.get("guard"):
+                        raise ValueError("guarded arm %s" % A.unparse(p)[:30])
+                    if p.get("k") == "PWild" or (p.get("k") == "PIdent" and not p.get("sub")):
+                        return self.ev(arm["body"], env)
+                    segs, subs = A.pat_variant(p)
+                    if segs == ["Op", "Const"]:
+                        if env[src][1].c:
+                            e2 = dict(env)
+                            if subs and A.binding_name(subs[0]):
+                                e2[A.binding_name(subs[0])] = env[src][1]
+                            return self.ev(arm["body"], e2)
+                        continue
+                    raise ValueError("arm %s" % A.unparse(p)[:30])
                 return None
             raise ValueError("match %s" % A.ftxt(scr)[:30])
         raise ValueError("expr %s" % A.unparse(e)[:40])
@@ -608,23 +649,64 @@ def r6_tree_eq_hash_drop(rule, root=None):
                 segs, _ = A.pat_variant(el)
                 vs.append(segs[-1] if segs else None)
             if len(vs) == 2 and vs[0] == vs[1]:
-                seen[vs[0]] = A.ftxt(arm["body"])
+                seen[vs[0]] = arm
             else:
                 rule.bad("eq|mixed", "eq arm compares different variants %s" % vs, A.where(eq, arm))
-        want_eq = {
-            "Input": "if(*a!=*b){returnfalse;}", "Const": "if(OrderedFloat(*a)!=OrderedFloat(*b)){returnfalse;}",
-            "Unary": "if(*op_a!=*op_b){returnfalse;}", "Binary": "if(*op_a!=*op_b){returnfalse;}", "RemapAxes": "",
-        }
+
+        def first_bindings(arm):
+            """the names bound to the first payload field on either side (None when nothing is bound)"""
+            out = []
+            for el in arm["pat"]["elems"]:
+                if el.get("k") == "PTupleStruct":
+                    _segs, subs = A.pat_variant(el)
+                    out.append(A.binding_name(subs[0]) if subs and subs[0].get("k") != "PRest" else None)
+                elif el.get("k") == "PStruct":
+                    b = [A.binding_name(f["pat"]) for f in el["fields"] if f["name"] == "mat"]
+                    out.append(b[0] if b else None)
+                else:
+                    out.append(None)
+            return out
+
+        def unwrap_of(e):
+            """`OrderedFloat(*x)` -> ('of', x) ; `*x` / `x` -> ('', x)"""
+            e = A.strip(e)
+            if e.get("k") == "Call" and A.is_path(e["func"], "OrderedFloat") and len(e["args"]) == 1:
+                return "of", A.ident(A.strip(e["args"][0]))
+            return "", A.ident(e)
+
+        def returns_false(blk):
+            st = A.stmts_of(blk)
+            if len(st) != 1:
+                return False
+            r = A.strip(A.stmt_expr(st[0]) or {})
+            v = A.strip(r.get("e") or {}) if r.get("k") == "Return" else {}
+            return v.get("k") == "Lit" and v.get("ty") == "bool" and v.get("v") == "false"
+
         for v in ("Input", "Const", "Unary", "Binary", "RemapAxes", "RemapAffine"):
             if v not in seen:
                 rule.bad("eq|%s|missing" % v, "eq has no arm for a pair of TreeOp::%s" % v, A.where(eq))
                 continue
-            g = seen[v]
-            g = g[1:-1] if g.startswith("{") and g.endswith("}") else g
-            if v == "RemapAffine":
-                ok = "mat_a.matrix().iter().zip(mat_b.matrix().iter()).any(|(a,b)|(OrderedFloat(*a)!=OrderedFloat(*b)))" in g and "returnfalse" in g
+            arm = seen[v]
+            g = A.ftxt(arm["body"])
+            names = first_bindings(arm)
+            st = A.stmts_of(arm["body"])
+            if v == "RemapAxes":
+                ok = len(st) == 0
+            elif v == "RemapAffine":
+                ok = (
+                    None not in names
+                    and "%s.matrix().iter().zip(%s.matrix().iter()).any(|(a,b)|(OrderedFloat(*a)!=OrderedFloat(*b)))" % tuple(names) in g
+                    and "returnfalse" in g
+                )
             else:
-                ok = g == want_eq[v]
+                ok = False
+                if len(st) == 1 and None not in names:
+                    i_ = A.strip(A.stmt_expr(st[0]) or {})
+                    c = A.strip(i_.get("cond") or {}) if i_.get("k") == "If" and not i_.get("else") else {}
+                    if c.get("k") == "Binary" and c.get("op") == "!=" and returns_false(i_["then"]):
+                        l, r = unwrap_of(c["left"]), unwrap_of(c["right"])
+                        wrap = "of" if v == "Const" else ""
+                        ok = {l[1], r[1]} == set(names) and l[0] == r[0] == wrap
             if ok:
                 rule.ok("eq(TreeOp::%s) compares its payload" % v)
             else:
